@@ -27,13 +27,14 @@ func mkfs() *memfs.FS {
 	fs := memfs.New()
 	fs.AddFile("a/f", []byte("ffff"))
 	fs.AddFile("a/g", []byte("gggg"))
-	fs.MkdirP("a/sub")
+	fs.AddFile("a/sub/s", []byte("ssss"))
 	fs.AddFile("b/h", []byte("hhhh"))
 	return fs
 }
 
 // Per-client fid layout: base+1 root, base+2 /a, base+3 /a/f, base+4 /b,
-// base+5 /a/f opened RW (second fid on the same file), base+6 /a/sub.
+// base+5 /a/f opened RW (second fid on the same file), base+6 /a/sub,
+// base+12 /a/sub/s.
 // new fids created by requests: base+7..
 func bindAll(s *sess.Sess, base uint32) {
 	s.Attach(base + 1)
@@ -43,6 +44,7 @@ func bindAll(s *sess.Sess, base uint32) {
 	s.Walk(base+1, base+5, "a", "f")
 	s.Open(base+5, 2)
 	s.Walk(base+1, base+6, "a", "sub")
+	s.Walk(base+1, base+12, "a", "sub", "s") // a fid BELOW the directory that rename-dir moves
 }
 
 type reqf func(tag uint16, base uint32, sfx string) refcodec.Msg
@@ -69,9 +71,11 @@ var menu = map[string]reqf{
 	"reattach-root":   func(t uint16, b uint32, s string) refcodec.Msg { return rawpeer.Tattach(t, b+10, "") },
 	"xattrwalk":       func(t uint16, b uint32, s string) refcodec.Msg { return rawpeer.Txattrwalk(t, b+3, b+11, "") },
 	"lopen":           func(t uint16, b uint32, s string) refcodec.Msg { return rawpeer.Tlopen(t, b+3, 0) },
+	"clunk-below":     func(t uint16, b uint32, s string) refcodec.Msg { return rawpeer.Tclunk(t, b+12) },
+	"getattr-below":   func(t uint16, b uint32, s string) refcodec.Msg { return rawpeer.Tgetattr(t, b+12) },
 }
 
-var single = []string{"rename-samedir", "rename-crossdir", "rename-fid", "rename-dir", "unlink", "remove", "create", "mkdir", "walk", "walk2", "clone", "clunk", "clunk-dir", "getattr", "setattr", "read", "write", "attach", "xattrwalk", "lopen"}
+var single = []string{"rename-samedir", "rename-crossdir", "rename-fid", "rename-dir", "unlink", "remove", "create", "mkdir", "walk", "walk2", "clone", "clunk", "clunk-dir", "getattr", "setattr", "read", "write", "attach", "xattrwalk", "lopen", "clunk-below", "getattr-below"}
 
 type params struct {
 	Clients  [][]string `json:"clients"` // request names per client, in order
@@ -229,12 +233,15 @@ func generalize(s string) string {
 }
 
 func run(ctx *fw.Ctx, rep *fw.Report) {
-	rep.Rule = "scenario = 2-3 clients (own fids; at most one request outstanding per fid) issuing 1-2 requests each from a 20-request menu (walks, clone, create, mkdir, unlink, remove, same-dir/cross-dir/dir renames, clunk, attach re-bind, xattrwalk, open, read, write, getattr, setattr) on overlapping paths over one shared or one connection each; all Mazurkiewicz traces (DPOR+sleep sets; fallback preemption bound 0,1); oracles: deadlock, every request answered, happens-before race on the instrumented shared state (fid table, tag table, path tree maps, fidRef fields, client maps), path tree consistency and File lifecycle at the end; isolation family: disjoint subtrees, per-client reply sequence == solo run; distinct = distinct reply vectors per scenario"
+	rep.Rule = "scenario = 2-3 clients (own fids; at most one request outstanding per fid) issuing 1-2 requests each from a 22-request menu (walks, clone, create, mkdir, unlink, remove, same-dir/cross-dir/dir renames, clunk, attach re-bind, xattrwalk, open, read, write, getattr, setattr) on overlapping paths over one shared or one connection each; all Mazurkiewicz traces (DPOR+sleep sets; fallback preemption bound 0,1); oracles: deadlock, every request answered, happens-before race on the instrumented shared state (fid table, tag table, path tree maps, fidRef fields, client maps), path tree consistency and File lifecycle at the end; isolation family: disjoint subtrees, per-client reply sequence == solo run; distinct = distinct reply vectors per scenario"
 	rep.Assumptions = append(rep.Assumptions, "independence classes of DESIGN §2.2", "<=3 client threads, <=3 connections (the property's 2..64 goroutines / 1..8 connections are beyond exhaustive reach; see DESIGN §6)", "race check covers the instrumented fields/maps listed in cmd/verifgen")
 	var all []params
 	for _, a := range single {
 		for _, b := range single {
 			all = append(all, params{Clients: [][]string{{a}, {b}}, TwoConns: true})
+			if ctx.Quick() && a > b {
+				continue // quick: the one-connection variant once per unordered pair
+			}
 			all = append(all, params{Clients: [][]string{{a}, {b}}, TwoConns: false})
 		}
 	}
